@@ -148,6 +148,45 @@ def check_vector_map(fx, rep):
                 sample={"rule": "R19.1", "fn": name, "step": op, "guards": [f"{k}({T.short(s)[:50]})" for k, s in facts], "at": w},
             )
     rep.floor("R19.1", n_writes, 2, f"writes to VectorMap::{cnt}")
+    # a fresh map reports 0: wherever the type is built from its fields, the counter starts at the number of occupied slots of
+    # the vector it is given - literally 0 with a vector that holds no `Some`, or the length of a vector that is empty
+    GROW = {"push", "resize", "resize_with", "extend", "extend_from_slice", "insert", "append", "fill", "fill_with"}
+    n_ctor = 0
+    for name, b in sorted(fns.items()):
+        root = b["hir"]["value"]
+        for lit, lps in F.walk(root):
+            if lit.get("k") != "Struct" or lit.get("adt") != VM_ADT:
+                continue
+            fl = {f["field"]: f["e"] for f in lit["fields"]}
+            if cnt not in fl or "data" not in fl:
+                continue
+            n_ctor += 1
+            mutated = T.mutated_locals(root)
+            st = T.term(fl[cnt], T.env_at(lps, lit, mutated), mutated)
+            zero = st == ("lit", "0")
+            is_len = st[0] == "call" and isinstance(st[1], str) and F.strip_generics(st[1]).split("::")[-1] == "len"
+            # where the vector comes from: this body, or (for a parameter) every caller inside the type's own methods
+            dl = F.local_of(F.strip(fl["data"]))
+            params = {p_.get("local") for p_ in b["hir"]["params"]}
+            sources = []
+            if dl in params:
+                pi = [p_.get("local") for p_ in b["hir"]["params"]].index(dl)
+                for cname, cb in fns.items():
+                    for c, _ in F.calls(cb["hir"]["value"]):
+                        if F.strip_generics(F.callee_def(c) or "") == F.strip_generics(b["def"]) and len(c.get("args", [])) > pi:
+                            sources.append((cb, F.local_of(F.strip(c["args"][pi]))))
+            else:
+                sources.append((b, dl))
+            grows, some_fill = [], []
+            for sb, sl in sources:
+                for c, _ in F.calls(sb["hir"]["value"]):
+                    if c.get("k") == "MethodCall" and c["method"] in GROW and sl is not None and F.local_of(F.strip(c["recv"])) == sl:
+                        grows.append(f"{sb['name']}:{c['method']}")
+                        if any(x.get("k") == "Call" and (F.path_def(x["f"]) or "").endswith("::Some") for a in c["args"] for x, _ in F.walk(a)) or c["method"] in ("push", "insert", "extend", "append", "extend_from_slice"):
+                            some_fill.append(f"{sb['name']}:{c['method']}")
+            ok = bool(sources) and ((zero and not some_fill) or (is_len and not grows))
+            rep.oblige(ok, "R19.1", f"counter-init:{name}", F.loc(lit["span"]), f"`{name}` builds the map with `{cnt}` = `{T.short(st)[:40]}` over a vector that " + (f"has been grown by {grows}" if grows else "comes from an unknown place") + ": a fresh map reports a length that is not the number of its entries", sample={"rule": "R19.1", "fn": name, "initial_counter": T.short(st)[:30], "vector_grown_by": grows})
+    rep.floor("R19.1", n_ctor, 1, "places where the vector map is built from its fields")
     # operations that change how many slots are occupied without going through the counted write / take idiom
     for name, b in sorted(fns.items()):
         root = b["hir"]["value"]
@@ -248,6 +287,20 @@ def check_disjoint_set(fx, rep):
         return
     reps, data = parent_f[0], data_f[0]
 
+    # every operation that names an element looks it up first, unconditionally: the look-up is what registers an element the forest
+    # has not seen, so an early return in front of it leaves that element out of values() / sets()
+    n_first = 0
+    for name, b in sorted(fns.items()):
+        if name in ("find", "insert", "new", "default", "sets", "values", "with_capacity"):
+            continue
+        root = b["hir"]["value"]
+        vparams = [p_ for p_ in b["hir"]["params"] if p_.get("p") == "Bind" and (p_.get("ty") or "").replace(" ", "") in ("&Value",)]
+        for p_ in vparams:
+            n_first += 1
+            calls = [(c, cps) for c, cps in F.calls(root) if c.get("k") == "MethodCall" and (c.get("def") or "").endswith("DisjointSet::<Value, Data>::find") and c["args"] and F.local_of(F.strip(c["args"][0])) == p_["local"]]
+            uncond = [c for c, cps in calls if not T.path_conditions(cps, c) and not any(a.get("k") in ("If", "Match", "Loop", "Closure") for a, _ in cps if isinstance(a, dict))]
+            rep.oblige(bool(uncond), "R19.2", f"lookup-first:{name}:{p_['name']}", F.loc(b["span"]), f"`{name}` does not look `{p_['name']}` up with find() unconditionally (it can return, or act, before the look-up): an element the forest has not seen is not registered on that path and is missing from values() and sets()", sample={"rule": "R19.2", "fn": name, "param": p_["name"]} if n_first <= 3 else None)
+    rep.floor("R19.2", n_first, 4, "element parameters of the forest's operations")
     # R19.2 ---------------------------------------------------------------------------------
     n_sites = 0
     for name, b in sorted(fns.items()):
